@@ -6,6 +6,7 @@ import (
 	"bytes"
 	"encoding/json"
 	"fmt"
+	"net"
 	"os"
 	"path/filepath"
 	"reflect"
@@ -27,6 +28,24 @@ func vfLineOfType(w *vfWire, typ string, fromMsg int) (string, int) {
 		}
 	}
 	return "", -1
+}
+
+// vfFindLine scans raw tap bytes from offset from for the first line starting with marker.
+func vfFindLine(w *vfWire, from int64, marker string) string {
+	tap := w.Tap()
+	if from > int64(len(tap)) {
+		return ""
+	}
+	i := bytes.Index(tap[from:], []byte(marker))
+	if i < 0 {
+		return ""
+	}
+	rest := tap[from+int64(i):]
+	j := bytes.IndexByte(rest, '\n')
+	if j < 0 {
+		return ""
+	}
+	return strings.TrimSuffix(string(rest[:j]), "!")
 }
 
 func vfDecodeLine(line string) ([]byte, error) {
@@ -77,6 +96,7 @@ func vfCapsShim(caps vfClientCaps) func(line []byte) []byte {
 }
 
 type vfC14Episode struct {
+	Tunnel bool        `json:"tunnel"`
 	Kind  string       `json:"kind"` // success, cancel, server-fail, client-fail, ctrl-c
 	Dir   string       `json:"dir"`
 	Caps  vfClientCaps `json:"caps"`
@@ -96,8 +116,8 @@ func (r *vfFilterRig) c14Episode(ep vfC14Episode, work string, n int) bool {
 	content := vfNewRand(c.ID, "c14", n).Bytes(60000)
 	os.WriteFile(filepath.Join(src, "f.bin"), content, 0644)
 	os.Unsetenv("VF_ZENITY")
-	upMsg0, downMsg0 := len(r.up[0].Msgs()), len(r.down[0].Msgs())
-	upMsgN, downMsgN := len(r.up[nrel].Msgs()), len(r.down[nrel].Msgs())
+	upOff0, downOff0 := r.up[0].TapLen(), r.down[0].TapLen()
+	upOffN, downOffN := r.up[nrel].TapLen(), r.down[nrel].TapLen()
 	shim := vfCapsShim(ep.Caps)
 	r.up[0].SetMutator(func(index int, typ string, line []byte) []byte {
 		if typ == "ACT" {
@@ -146,6 +166,31 @@ func (r *vfFilterRig) c14Episode(ep vfC14Episode, work string, n int) bool {
 	}
 	gate := make(chan struct{})
 	st = newTransfer(r.serverOut, nil, false, nil)
+	port := 0
+	dial := func(p int) net.Conn {
+		conn, err := net.DialTimeout("tcp", fmt.Sprintf("127.0.0.1:%d", p), 2*time.Second)
+		if err != nil {
+			return nil
+		}
+		return conn
+	}
+	r.idn++
+	id := fmt.Sprintf("%011d00", (time.Now().UnixMilli()%1e7)*10000+r.idn%10000)
+	if ep.Tunnel {
+		var listener net.Listener
+		listener, port = listenForTunnel()
+		if listener != nil {
+			defer listener.Close()
+			// through relays the id arrives re-tagged (..00 -> ..20): the greeting only uses the id without its last two digits
+			st.acceptOnTunnel(listener, id, port)
+		}
+		f.SetTunnelConnector(dial)
+		for _, rl := range r.relays {
+			rl.SetTunnelConnector(dial)
+		}
+	} else {
+		f.SetTunnelConnector(nil)
+	}
 	r.attach(func(p []byte) { st.addReceivedData(p, false) })
 	go func() {
 		var err error
@@ -176,9 +221,7 @@ func (r *vfFilterRig) c14Episode(ep vfC14Episode, work string, n int) bool {
 		st.cleanup()
 		done <- err
 	}()
-	r.idn++
-	id := fmt.Sprintf("%011d00", (time.Now().UnixMilli()%1e7)*10000+r.idn%10000)
-	r.serverOut.WriteAtomic([]byte(fmt.Sprintf("\x1b7\x07::TRZSZ:TRANSFER:%s:%s:%s:0\r\n", mode, version, id)))
+	r.serverOut.WriteAtomic([]byte(fmt.Sprintf("\x1b7\x07::TRZSZ:TRANSFER:%s:%s:%s:%d\r\n", mode, version, id, port)))
 	if ep.Kind == "ctrl-c" {
 		deadline := time.Now().Add(10 * time.Second)
 		for !f.IsTransferringFiles() && time.Now().Before(deadline) {
@@ -207,8 +250,8 @@ func (r *vfFilterRig) c14Episode(ep vfC14Episode, work string, n int) bool {
 		}
 	}
 	// --- narrowing oracle on the handshake lines
-	actIn, _ := vfLineOfType(r.up[0], "ACT", upMsg0)
-	actOut, _ := vfLineOfType(r.up[nrel], "ACT", upMsgN)
+	actIn := vfFindLine(r.up[0], upOff0, "#ACT:")
+	actOut := vfFindLine(r.up[nrel], upOffN, "#ACT:")
 	if actIn != "" {
 		actIn = strings.TrimSuffix(string(shim([]byte(actIn+"\n"))), "\n")
 	}
@@ -225,7 +268,10 @@ func (r *vfFilterRig) c14Episode(ep vfC14Episode, work string, n int) bool {
 			return false
 		}
 		want = in
-		want.SupportBinary = false // no tunnel through these relays
+		if ep.Tunnel {
+			c.Inconc("ACT seen in-band in a tunnel episode")
+		}
+		want.SupportBinary = false // no tunnel in this episode
 		if want.Protocol > kProtocolVersion {
 			want.Protocol = kProtocolVersion
 		}
@@ -243,8 +289,8 @@ func (r *vfFilterRig) c14Episode(ep vfC14Episode, work string, n int) bool {
 		}
 		c.Obs("act_lines_compared", 1)
 	}
-	cfgIn, _ := vfLineOfType(r.down[0], "CFG", downMsg0)
-	cfgOut, _ := vfLineOfType(r.down[nrel], "CFG", downMsgN)
+	cfgIn := vfFindLine(r.down[0], downOff0, "#CFG:")
+	cfgOut := vfFindLine(r.down[nrel], downOffN, "#CFG:")
 	if cfgIn != "" {
 		if cfgOut == "" {
 			c.Viol("c14-cfg-not-forwarded", "episode %+v: the server's CFG never reached the client end", ep)
@@ -332,7 +378,11 @@ func TestVF_C14(t *testing.T) {
 				ep.Args = baseArgs{Quiet: r.Intn(2) == 0, Overwrite: r.Intn(2) == 0, Binary: r.Intn(2) == 0, Escape: r.Intn(2) == 0,
 					Directory: r.Intn(2) == 0 && !ep.Caps.NoDir, Bufsize: bufferSize{int64(r.PickInt(1024, 65536, 10<<20))}, Timeout: r.PickInt(10, 20, 30), Compress: compressType(r.Intn(3))}
 				ep.ArgsS = fmt.Sprintf("%+v", ep.Args)
-				hist = append(hist, fmt.Sprintf("%s/%s/p%d", ep.Kind, ep.Dir, ep.Caps.Protocol))
+				if ep.Kind == "success" && (i+k)%3 == 0 {
+					ep.Tunnel = true
+					ep.Caps = vfClientCaps{} // the ACT travels inside the tunnel: the shim cannot reach it
+				}
+				hist = append(hist, fmt.Sprintf("%s/%s/p%d/t%v", ep.Kind, ep.Dir, ep.Caps.Protocol, ep.Tunnel))
 				if !rig.c14Episode(ep, c.Dir, k) {
 					c.Replay(map[string]interface{}{"relays": nrel, "history": hist, "episode": ep})
 					return
